@@ -672,6 +672,8 @@ fn small_programs() -> Vec<(u16, Vec<u16>, bool, &'static str)> {
         // jump below origin / above user space
         (0x3000, vec![0x2201, 0xC040, 0x2FFF], false, "jump-below"),
         (0x3000, vec![0x2201, 0xC040, 0xFE00], false, "jump-above"),
+        // stores outside user space: below the origin and at 0xFE00 (only executed stores reach there)
+        (0x3000, vec![0x5020, 0x1025, 0x2204, 0x7040, 0x2203, 0x7040, 0xF025, 0x2FFF, 0xFE00], false, "store-outside"),
         // high origin
         (0x9000, vec![0x1021, 0x1021, 0x4801, 0xF025, 0x1262, 0xC1C0], false, "high-origin"),
     ]
@@ -808,6 +810,13 @@ pub fn run_prop(o: &crate::Opts, tag: &'static str) {
     let mut sink = crate::Sink::new(o);
     if let Some(path) = &o.replay {
         for line in std::fs::read_to_string(path).unwrap().lines() {
+            if line.starts_with("T09 ") {
+                match TextCase::parse(line) {
+                    Some(t) => sink.put(line, &run_text(&mut cap, &t)),
+                    None => sink.put(line, "bad-request"),
+                }
+                continue;
+            }
             match DbgCase::parse(line, tag) {
                 Some(c) => {
                     let obs = run_debug(&mut cap, &c);
@@ -827,7 +836,16 @@ pub fn run_prop(o: &crate::Opts, tag: &'static str) {
     let mut kinds: std::collections::BTreeMap<String, u64> = Default::default();
     let mut verdicts: std::collections::BTreeMap<String, u64> = Default::default();
     let mut samples = Vec::new();
-    for _ in 0..per {
+    for k in 0..per {
+        if tag == "D13" && k % 4 == 3 {
+            // text-level probes: location spellings whose offset or address does not fit 16 bits
+            // can only be written as text (they must be refused by the parser or the debugger)
+            let t = gen_wild_text_case(&mut rng);
+            let obs = run_text(&mut cap, &t);
+            *kinds.entry(format!("text-probe:{}", obs.split(' ').next().unwrap_or(""))).or_default() += 1;
+            sink.put(&t.request(), &obs);
+            continue;
+        }
         let (c, kind) = gen_case(&mut rng, tag);
         let obs = run_debug(&mut cap, &c);
         let v = if obs.line == "panic" { "-".to_string() } else { verdict(&mut cap, tag, &c, &obs) };
@@ -1115,5 +1133,44 @@ pub fn gen_text_case(rng: &mut Rng) -> TextCase {
         1 => (Some(join(rng, &lines)), String::new()),
         _ => (Some(join(rng, &lines[..cut])), join(rng, &lines[cut..])),
     };
+    TextCase { base, arg, stdin }
+}
+
+/// Probe sessions written as text, with location spellings beyond 16 bits.
+pub fn gen_wild_text_case(rng: &mut Rng) -> TextCase {
+    let p = loop {
+        let p = pick_program(rng);
+        if p.inp.is_empty() && !p.words.iter().any(|w| *w == 0xF020 || *w == 0xF023) {
+            break p;
+        }
+    };
+    let base = decorate(rng, &p, "T09", vec![], 30_000);
+    let label = base.labels.first().map(|l| l.0.clone()).unwrap_or_else(|| "nolabel".to_string());
+    let wild_off = ["65534", "65536", "0x10000", "#99999", "32769", "x8001", "32768", "0xFFFF", "2147483647", "2147483648", "65535"];
+    let mut lines: Vec<String> = Vec::new();
+    for _ in 0..rng.below(3) {
+        lines.push(format!("step into {}", rng.range(1, 4)));
+    }
+    for _ in 0..rng.range(1, 5) {
+        let off = *rng.pick(&wild_off);
+        let sign = if rng.chance(1, 2) { "-" } else { "+" };
+        let loc = match rng.below(4) {
+            0 => format!("^{}{}", if sign == "-" { "-" } else { "" }, off),
+            1 => format!("{}{}{}", label, sign, off),
+            2 => (*rng.pick(&["x10000", "70000", "0x1FFFF", "#65536", "-1", "x-1"])).to_string(),
+            _ => format!("^{}{}", sign, off),
+        };
+        let verb = *rng.pick(&["goto", "move", "break add", "break remove", "print", "assembly"]);
+        if verb == "move" {
+            lines.push(format!("move {} x{:x}", loc, rng.u16()));
+        } else {
+            lines.push(format!("{} {}", verb, loc));
+        }
+    }
+    lines.push("registers".into());
+    lines.push("break list".into());
+    lines.push("exit".into());
+    let script = lines.join(if rng.chance(1, 2) { "\n" } else { ";" });
+    let (arg, stdin) = if rng.chance(1, 2) { (Some(script), String::new()) } else { (None, script) };
     TextCase { base, arg, stdin }
 }
